@@ -2,7 +2,8 @@
 From Coq Require Import ExtrOcamlBasic.
 From Coq Require Extraction.
 From Coq Require Import NArith.
-From Muscle Require Import Gen.Consts Cont.HtModel Cont.HtStep Cont.HtIdeal.
+From Muscle Require Import Gen.Consts Cont.HtModel Cont.HtStep Cont.HtIdeal Cont.HtStore.
 Definition default_capacity : N := c_MUSCLE_HASHTABLE_DEFAULT_CAPACITY.
 Extraction "ht_model.ml" step1 step0 init_world init_world0 abs_world abs abs_back shown gett geti
-           key_of_opt is_iter_op default_capacity.
+           key_of_opt is_iter_op default_capacity
+           st_step st_create st_narrow_ok idx_type st_lookup.
